@@ -5,6 +5,9 @@
 #     reported by the expected rule; results go into the evidence (coverage.mutant_selftest). A miss is printed as
 #     SELFTEST-MISS; it does not change the exit status (it says the analyser is weaker than recorded, not that
 #     the repository violates the property).
+#     The converse is tested too: every behaviour-preserving rewrite of refactors/<id>/patch.diff is applied the same
+#     way and must leave this property's check silent (coverage.mutant_selftest.refactorings); an alarm is printed as
+#     SELFTEST-FALSE-ALARM, again without changing the exit status.
 #  2. the same rules on a second target (GOARCH=arm64) - must be clean as well.
 #  3. the analysis of /repo's working tree, tier=thorough, evidence rewritten.
 set -u
@@ -53,10 +56,34 @@ def one(e):
         return {'id': e['id'], 'status': 'detected' if ok else 'MISSED', 'expected_rules': want, 'fired_rules': fired, 'breaks': e.get('what', '')}
     finally:
         shutil.rmtree(d, ignore_errors=True)
+# silence test: behaviour-preserving rewrites (refactors/<id>/patch.diff, written by independent sub-agents and
+# confirmed against the full suite) must not make this property's check fire
+def quiet(rid):
+    d = os.path.join(scratch, 'rf_' + rid)
+    try:
+        base(d)
+        r = subprocess.run(['git', 'apply', os.path.join(verif, 'refactors', rid, 'patch.diff')], cwd=d, capture_output=True, text=True)
+        if r.returncode != 0:
+            return {'id': rid, 'status': 'skipped', 'why': 'patch does not apply to HEAD: ' + r.stderr.strip()[:200]}
+        dump = os.path.join(scratch, 'rf_' + rid + '.obs.json')
+        subprocess.run([binp, '-repo', d, '-prop', prop, '-known', os.path.join(verif, 'known_findings.json'), '-dump', dump], capture_output=True, text=True)
+        if not os.path.exists(dump):
+            return {'id': rid, 'status': 'ALARM', 'fired': ['analyser could not load the rewritten tree']}
+        obs = json.load(open(dump))
+        fired = sorted({o['rule'] + ' ' + o['key'] for o in obs if o['status'] != 'discharged' and not o.get('known_finding') and o['property'] == prop})
+        return {'id': rid, 'status': 'ALARM' if fired else 'silent', 'fired': fired}
+    finally:
+        shutil.rmtree(d, ignore_errors=True)
+rdir = os.path.join(verif, 'refactors')
+rids = sorted(x for x in os.listdir(rdir) if os.path.exists(os.path.join(rdir, x, 'patch.diff'))) if os.path.isdir(rdir) else []
 with concurrent.futures.ThreadPoolExecutor(max_workers=6) as ex:
     results = list(ex.map(one, entries))
+    rres = list(ex.map(quiet, rids))
 json.dump({'mutants': len(results), 'detected': sum(1 for r in results if r['status'] == 'detected'),
-           'missed': [r['id'] for r in results if r['status'] == 'MISSED'], 'results': results}, sys.stdout, indent=1)
+           'missed': [r['id'] for r in results if r['status'] == 'MISSED'], 'results': results,
+           'refactorings': {'applied': sum(1 for r in rres if r['status'] != 'skipped'), 'silent': sum(1 for r in rres if r['status'] == 'silent'),
+                            'alarms': [r for r in rres if r['status'] == 'ALARM'], 'skipped': [r['id'] for r in rres if r['status'] == 'skipped']}},
+          sys.stdout, indent=1)
 PY
 python3 - "$RES" "$PROP" <<'PY'
 import json, sys
@@ -64,6 +91,10 @@ d = json.load(open(sys.argv[1]))
 print(f"self-test {sys.argv[2]}: {d['detected']}/{d['mutants']} mutants detected")
 for m in d['missed']:
     print(f"SELFTEST-MISS property={sys.argv[2]} mutant={m}")
+rf = d.get('refactorings', {})
+print(f"silence test {sys.argv[2]}: {rf.get('silent', 0)}/{rf.get('applied', 0)} behaviour-preserving rewrites raise no alarm")
+for a in rf.get('alarms', []):
+    print(f"SELFTEST-FALSE-ALARM property={sys.argv[2]} rewrite={a['id']} fired={a['fired'][:3]}")
 PY
 
 # second target: must be clean too (no evidence written)
